@@ -298,6 +298,7 @@ func init() {
 		for _, m := range []string{"aes-256-gcm", "chacha20-poly1305", "plain"} {
 			jobs = append(jobs, vx.Job{Scenario: "mux.garbagerecord", Params: vx.P("method", m, "ws", "1"), Bound: 0, BudgetS: 100, Weight: 3})
 		}
+		jobs = append(jobs, vx.Job{Scenario: "ws.textflood", Weight: 4})
 		jobs = append(jobs, vx.Job{Scenario: "mux.junkidle", Params: vx.P("method", "aes-256-gcm", "every", "4"), Bound: 1, BudgetS: 100, Weight: 3},
 			vx.Job{Scenario: "mux.junkidle", Params: vx.P("method", "chacha20-poly1305", "every", "9"), Bound: 1, BudgetS: 100, Weight: 3})
 		// short lengths with the step-free sweep (the big sweep may stride over them in the quick tier)
